@@ -2,6 +2,7 @@
    Life/ReadLoop.v, the Read wrapper over ANY decoder program (flate, brotli,
    bzip2 and meta decoders are such programs), with [Inv] holding for the
    freshly opened reader. *)
+From V Require Import XFlate.Index XFlate.Reader XFlate.Refine XFlate.Sequential.
 From V Require Import Base.Prelude Base.Prog Life.ReadLoop.
 
 (* every Read keeps the reader consistent with the one-shot decode *)
@@ -41,3 +42,14 @@ Theorem zero_length_read_loses_nothing : forall wrap v p0 s0 r,
   let '((c, e), r') := read wrap v r 0 in c = [] /\ delivered r' = delivered r.
 Proof. exact read_zero_loses_nothing. Qed.
 Print Assumptions zero_length_read_loses_nothing.
+
+(* xflate.Reader: on an honest stream (hypothesis of C07's theorem), sequential reading with
+   ANY sequence of buffer lengths (zero included) delivers in total the prefix of the content
+   of the total length asked *)
+Theorem xflate_sequential_reads_any_buffer_sizes : forall data content s1 ns,
+  open_reader data = inr s1 ->
+  honest data (r_recs s1) content ->
+  XFlate.Sequential.delivered (fst (XFlate.Reader.rrun s1 (map RRead ns))) =
+  firstn (Z.to_nat (XFlate.Sequential.total ns)) content.
+Proof. exact xflate_sequential_reads_any_schedule. Qed.
+Print Assumptions xflate_sequential_reads_any_buffer_sizes.
